@@ -1098,13 +1098,18 @@ class ElectrumX(SessionBase):
 
         touched = touched.intersection(self.hashX_subs)
         if touched or (height_changed and self.mempool_statuses):
-            changed = {}
+            changed = set()
+            method = 'blockchain.scripthash.subscribe'
 
+            # Send each status as soon as it is computed.  Computing the next one can wait on
+            # the DB, and a later notification running meanwhile must not be overtaken by an
+            # older status sent afterwards.
             for hashX in touched:
                 alias = self.hashX_subs.get(hashX)
                 if alias:
                     status = await self.subscription_address_status(hashX)
-                    changed[alias] = status
+                    changed.add(alias)
+                    await self.send_notification(method, (alias, status))
 
             # Check mempool hashXs - the status is a function of the confirmed state of
             # other transactions.
@@ -1114,11 +1119,8 @@ class ElectrumX(SessionBase):
                 if alias:
                     status = await self.subscription_address_status(hashX)
                     if status != old_status:
-                        changed[alias] = status
-
-            method = 'blockchain.scripthash.subscribe'
-            for alias, status in changed.items():
-                await self.send_notification(method, (alias, status))
+                        changed.add(alias)
+                        await self.send_notification(method, (alias, status))
 
             if changed:
                 es = '' if len(changed) == 1 else 'es'
